@@ -185,13 +185,88 @@ def count_faults(schedule) -> int:
     return n + real(schedule.get("faults", []))
 
 
+def isolated_run(world_name, prop, tier, seed, index, batch_seed, timeout):
+    """one_run in a forked child: a run must be a pure function of (seed, code), so whatever state the system under test
+    leaves behind in the process (module-level caches, class attributes, mutable defaults) must not reach the next run.
+    The parent only ever imports the code; every run starts from that pristine image."""
+    if os.environ.get("FSIM_NO_FORK"):
+        return one_run(world_name, prop, tier, seed, index, batch_seed, timeout)
+    out = isolated_call(lambda: one_run(world_name, prop, tier, seed, index, batch_seed, timeout), timeout)
+    if out is None:
+        return None, {"harness_error": f"isolated run produced no result (timeout or crash) world={world_name} seed={seed}"}
+    return out
+
+
+def isolated_violations(world_name, schedule, timeout):
+    """violations of executing a schedule, in a forked child (used by the shrinker)"""
+    def fn():
+        with time_limit(timeout):
+            return list(world(world_name).execute(schedule).violations)
+
+    if os.environ.get("FSIM_NO_FORK"):
+        return fn()
+    return isolated_call(fn, timeout)
+
+
+def isolated_call(fn, timeout):
+    import pickle
+
+    r, w = os.pipe()
+    pid = os.fork()
+    if pid == 0:
+        code = 0
+        try:
+            os.close(r)
+            res = fn()
+            with os.fdopen(w, "wb") as f:
+                pickle.dump(res, f, protocol=pickle.HIGHEST_PROTOCOL)
+        except BaseException:  # noqa: BLE001
+            code = 1
+        finally:
+            os._exit(code)
+    os.close(w)
+    data = b""
+    deadline = time.time() + timeout + 60
+    import select
+
+    with os.fdopen(r, "rb") as f:
+        while True:
+            left = deadline - time.time()
+            if left <= 0:
+                break
+            ready, _, _ = select.select([f], [], [], min(left, 5.0))
+            if ready:
+                chunk = f.read1(1 << 20)
+                if not chunk:
+                    break
+                data += chunk
+    try:
+        if time.time() >= deadline:
+            os.kill(pid, signal.SIGKILL)
+    except ProcessLookupError:
+        pass
+    os.waitpid(pid, 0)
+    if not data:
+        return None
+    return pickle.loads(data)
+
+
+def preimport():
+    """import the system under test once, before any fork: children inherit the pristine modules"""
+    for m in ("formak.python", "formak.cpp", "formak.runtime", "formak.ui", "formak.ui_state_machine", "sklearn.base", "sklearn.model_selection", "scipy.optimize"):
+        try:
+            __import__(m)
+        except Exception:  # noqa: BLE001
+            pass
+
+
 def _chunk_worker(args):
     world_name, prop, tier, batch_seed, indices, timeout, keep_samples = args
     faulthandler.enable()
     out = []
     for i in indices:
         seed = run_seed(batch_seed, world_name, prop, i)
-        schedule, c = one_run(world_name, prop, tier, seed, i, batch_seed, timeout)
+        schedule, c = isolated_run(world_name, prop, tier, seed, i, batch_seed, timeout)
         c["index"] = i
         c["seed"] = seed
         if schedule is not None and (c["violations"] or i in keep_samples):
@@ -205,6 +280,7 @@ def run_batch(world_name, prop, tier, batch_seed, n_runs, workers, timeout, budg
     w = world(world_name)
     if hasattr(w, "prepare"):
         w.prepare(tier)  # e.g. compile C++ legs once, before forking
+    preimport()
     indices = list(range(first_index, first_index + n_runs))
     chunk = chunk or max(1, min(25, n_runs // (workers * 4) or 1))
     chunks = [indices[i : i + chunk] for i in range(0, len(indices), chunk)]
@@ -270,11 +346,10 @@ def shrink(world_name: str, schedule: dict, target: Violation, budget_s: float =
             return False
         calls[0] += 1
         try:
-            with time_limit(run_timeout):
-                r = w.execute(s)
+            vs = isolated_violations(world_name, s, run_timeout)
         except Exception:
             return False
-        return any(same_class(v, target) for v in r.violations)
+        return bool(vs) and any(same_class(v, target) for v in vs)
 
     best = json.loads(json.dumps(schedule))
     best.pop("violation", None)
